@@ -87,10 +87,16 @@ pub open spec fn pat_unsafe_erc20(n: Node) -> bool {
         _ => false,
     }
 }
-// floating_pragma: a pragma directive whose value contains '^'
+// floating_pragma: a pragma directive whose value, comments removed, contains '^'
+/// utils::strip_comments as a function of the character sequence (TRUSTED: regex-based, external_body stub below)
+pub uninterp spec fn spec_strip_comments(s: Seq<char>) -> Seq<char>;
+#[verifier::external_body]
+pub fn strip_comments(text: &str) -> (r: String)
+    ensures r@ == spec_strip_comments(text@)
+{ unimplemented!() }
 pub open spec fn pat_floating_pragma(n: Node) -> bool {
     match n {
-        Node::SourceUnitPart(pt::SourceUnitPart::PragmaDirective(_, _, lit)) => sp_contains::<char>(lit.string@, '^'),
+        Node::SourceUnitPart(pt::SourceUnitPart::PragmaDirective(_, _, lit)) => sp_contains::<char>(spec_strip_comments(lit.string@), '^'),
         _ => false,
     }
 }
